@@ -280,6 +280,13 @@ pub fn replay(case: &Value) -> Result<Vec<(String, String)>, String> {
             let (f, _, _) = run_program(&prog, &q);
             Ok(f.into_iter().map(|(k, w)| (format!("C12/{}", k), w)).collect())
         }
+        "svg-image-long" => {
+            let len = case.get("length").and_then(|x| x.as_u64()).ok_or("length")? as usize;
+            let variant = case.get("variant").and_then(|x| x.as_u64()).ok_or("variant")? as usize;
+            let syms = symbols();
+            let (f, _, _) = run_program(&[Op::Image(long_image(len, variant)), Op::ImagePosition(10.0, 10.5)], &syms[1].1);
+            Ok(f.into_iter().map(|(k, w)| (format!("C12/{}", k), w)).collect())
+        }
         "svg-image" => {
             let s = case.get("image").and_then(|x| x.as_str()).ok_or("image")?;
             let syms = symbols();
@@ -293,6 +300,34 @@ pub fn replay(case: &Value) -> Result<Vec<(String, String)>, String> {
         }
         _ => Err(format!("unknown case kind {}", kind)),
     }
+}
+
+/// a data URI of exactly `len` bytes; variant 1: '&' in the middle and '<' as the last character; variant 2: a double
+/// quote every 1000 characters
+fn long_image(len: usize, variant: usize) -> String {
+    let head = "data:image/png;base64,";
+    let mut b: Vec<u8> = head.bytes().collect();
+    let alphabet = b"ABCDEFGHIJKLMNOPQRSTUVWXYZabcdefghijklmnopqrstuvwxyz0123456789+/";
+    while b.len() < len {
+        b.push(alphabet[(b.len() * 7 + b.len() / 64) % 64]);
+    }
+    b.truncate(len.max(head.len()));
+    let n = b.len();
+    match variant {
+        1 => {
+            b[n / 2] = b'&';
+            b[n - 1] = b'<';
+        }
+        2 => {
+            let mut i = 999;
+            while i < n {
+                b[i] = b'"';
+                i += 1000;
+            }
+        }
+        _ => {}
+    }
+    String::from_utf8(b).unwrap()
 }
 
 fn sweep_symbol(v: usize) -> Option<Box<QRCode>> {
@@ -326,7 +361,7 @@ fn colour_routes(c: [u8; 4]) -> Vec<String> {
 
 pub fn run(ctx: &Ctx) -> Collector {
     let col = Collector::new("C12", "model_checking");
-    col.set_rule("E2: breadth-first search over ALL SvgBuilder programs up to depth D (quick 3, thorough 4) over a 32-operation alphabet {shape x6, shape_color x6x2 + 2 with the default / the later module colour, margin x4, module_color, background_color, image(with & < > \" '), image_background_color, image_background_shape, image_size, image_gap, image_position}; model state = (layer list, margin, module colour, background, image) hashed and counted; every program (path) is replayed on a fresh real SvgBuilder and rendered on a v1 and a v2 symbol; oracle: own strict XML parser accepts the document; square viewBox/background of side size+2*margin in the background colour; one <path> per layer in order with the layer's colour; own path interpreter puts the sub-paths in bijection with the dark modules (centre inside the unit cell anchored at (col+margin,row+margin), box within the cell grown by 0.1, none on light modules or quiet zone); every layer's sub-paths (start point, bounding box, segment count) equal those a builder configured with that shape alone draws for the same symbol and margin; one <image> whose entity-decoded href equals the configured string. Sweeps: 40 versions x 6 shapes x 4 margins; 3 to 8 layers on versions 20/30/40 (documents of several MB); colour formatting (all 4x256 single-channel values and the 8^4 edge grid through every conversion route); image strings: all 820 strings of length <= 3 over {a & < > \" ' space ; #} + realistic URLs/data URIs/paths; non-trivial = a document was rendered; distinct = distinct documents");
+    col.set_rule("E2: breadth-first search over ALL SvgBuilder programs up to depth D (quick 3, thorough 4) over a 32-operation alphabet {shape x6, shape_color x6x2 + 2 with the default / the later module colour, margin x4, module_color, background_color, image(with & < > \" '), image_background_color, image_background_shape, image_size, image_gap, image_position}; model state = (layer list, margin, module colour, background, image) hashed and counted; every program (path) is replayed on a fresh real SvgBuilder and rendered on a v1 and a v2 symbol; oracle: own strict XML parser accepts the document; square viewBox/background of side size+2*margin in the background colour; one <path> per layer in order with the layer's colour; own path interpreter puts the sub-paths in bijection with the dark modules (centre inside the unit cell anchored at (col+margin,row+margin), box within the cell grown by 0.1, none on light modules or quiet zone); every layer's sub-paths (start point, bounding box, segment count) equal those a builder configured with that shape alone draws for the same symbol and margin; one <image> whose entity-decoded href equals the configured string. Sweeps: 40 versions x 6 shapes x 4 margins; 3 to 8 layers on versions 20/30/40 (documents of several MB); colour formatting (all 4x256 single-channel values and the 8^4 edge grid through every conversion route); image strings: all 820 strings of length <= 3 over {a & < > \" ' space ; #} + realistic URLs/data URIs/paths; data URIs of 2 KB to 1 MB; non-trivial = a document was rendered; distinct = distinct documents");
     col.assume("custom Shape::Command callbacks and colours given as arbitrary strings are outside the quantifier as written; not explored");
     col.assume("geometry is judged on bounding boxes of flattened sub-paths (own interpreter), not on path syntax or emission order");
     let thorough = ctx.tier.thorough();
@@ -590,6 +625,19 @@ pub fn run(ctx: &Ctx) -> Collector {
             col.violation((30, i as u64), format!("C12/{}", k), format!("image string {:?}: {}", s, w), json!({"kind": "svg-image", "image": s}));
         }
     });
+    // long image strings (what an embedded logo really is): the href must still be the string, wherever its special
+    // characters are, and the rest of the document must not change with the length
+    let long_cases: Vec<(usize, usize)> = [2047usize, 2048, 2049, 4096, 65535, 65536, 300_000, 1 << 20].iter().flat_map(|&l| (0..3usize).map(move |v| (l, v))).collect();
+    pool::par_for(long_cases.len(), |i| {
+        let (len, variant) = long_cases[i];
+        let img = long_image(len, variant);
+        let (f, digest, _) = run_program(&[Op::Image(img), Op::ImagePosition(10.0, 10.5)], &syms[1].1);
+        col.eval(digest);
+        for (k, w) in f {
+            col.violation((31, i as u64), format!("C12/{}", k), format!("image string of {} bytes (variant {}): {}", len, variant, w), json!({"kind": "svg-image-long", "length": len, "variant": variant}));
+        }
+    });
+    col.space(json!({"name": "long image strings", "cases": long_cases.len(), "what": "data URIs of 2047, 2048, 2049, 4096, 65535, 65536, 300 000 and 2^20 bytes x {plain, an ampersand in the middle and a '<' as last character, a quote every 1000 characters}, with an explicit image position", "exhaustive": true}));
     col.space(json!({"name": "image strings", "cases": strings.len(), "what": format!("all 2954 strings of length <= 3 over {{a & < > \" ' space ; # e-acute U+1F600 {{ }} 0}}, alone and inside 7 contexts (data:, data:image/svg+xml;utf8, URL + extension, ./, #, extension only, a 300-character run in front) = {} strings, + {} realistic URLs, data URIs, paths and injection attempts", n_short, strings.len() - n_short), "exhaustive": true}));
     col.sample(json!({"kind": "svg-image", "image": "a&<"}));
     col
